@@ -108,6 +108,7 @@ type Machine struct {
 	gsnap      map[*ssa.Global]Value
 	payloads   []payloadRec
 	forceExact bool
+	splitMemo  []splitMemo
 	ufArgs     map[string][]*Term // UF predicates applied on this path (validbech32_acc, validdec, ...)
 }
 
